@@ -195,7 +195,8 @@ theorem search_firstF (cfg : Cfg) (fs : FS) (s : LState) (r : Req) (key : Key) (
     match firstOnPathF fs r.fault key entries with
     | .nothing => search cfg fs s r key isabs entries = (s, .err .notFound)
     | .raised => search cfg fs s r key isabs entries = (s, .err .loadFunc)
-    | .file fp name f => ∃ u, search cfg fs s r key isabs entries = instantiate cfg s r key isabs fp name f u := by
+    | .file fp name f => ∃ checks : Bool, search cfg fs s r key isabs entries =
+        instantiate cfg s r key isabs fp name f (if checks then .mtime fp f.mtime else .never) := by
   induction entries with
   | nil => simp [firstOnPathF, search]
   | cons e rest ih =>
@@ -207,7 +208,7 @@ theorem search_firstF (cfg : Cfg) (fs : FS) (s : LState) (r : Req) (key : Key) (
       simp only
       cases hf : fs (normpath fp) with
       | none => simpa using ih
-      | some f => exact ⟨_, rfl⟩
+      | some f => exact ⟨checks, rfl⟩
 
 theorem load_by_firstF (cfg : Cfg) (fs : FS) (s : LState) (r : Req)
     (hno : alookup (resolve cfg.path.isEmpty r) s.cache.items = none ∨
@@ -249,7 +250,7 @@ theorem load_by_firstF (cfg : Cfg) (fs : FS) (s : LState) (r : Req)
       simp only at hsf ⊢
       obtain ⟨u, hsf⟩ := hsf
       rw [hsf] at h2
-      rcases instantiate_cases cfg (touched s0 key) r key isabs fp name f u with ⟨hbad, hi⟩ | ⟨hbad, hcb, hr, hi⟩ | ⟨hbad, _, hi⟩
+      rcases instantiate_cases cfg (touched s0 key) r key isabs fp name f _ with ⟨hbad, hi⟩ | ⟨hbad, hcb, hr, hi⟩ | ⟨hbad, _, hi⟩
       · rw [hi] at h2; exact Or.inl ⟨hbad, h2⟩
       · rw [hi] at h2; exact Or.inr (Or.inl ⟨hbad, hcb, hr, h2⟩)
       · rw [hi] at h2
@@ -342,5 +343,175 @@ theorem load_other_key (cfg : Cfg) (fs : FS) (s : LState) (r : Req) (k : Key) (t
     · rw [hc] at h
       have := alookup_set_ne hk h
       rwa [alookup_touched_ne s hk] at this
+
+/-! ### a file rewritten in place while it is read -/
+
+/-- a parse stores the up-to-date value the item delivered: `None`, or the time the file had -/
+theorem load_parsed_utd (cfg : Cfg) (fs : FS) (s : LState) (r : Req) (t : Tmpl)
+    (hno : alookup (resolve cfg.path.isEmpty r) s.cache.items = none ∨
+      (cfg.autoReload = true ∧ stillCurrent fs s (resolve cfg.path.isEmpty r) = false))
+    (hres : (load cfg fs s r).2 = .ok t) :
+    ∃ entries isabs fp name f, searchPath cfg r (resolve cfg.path.isEmpty r) = some (entries, isabs) ∧
+      firstOnPathF fs r.fault (resolve cfg.path.isEmpty r) entries = .file fp name f ∧
+      t.content = f.content ∧
+      ((load cfg fs s r).1.utd (resolve cfg.path.isEmpty r) = some .never ∨
+       (load cfg fs s r).1.utd (resolve cfg.path.isEmpty r) = some (.mtime fp f.mtime)) := by
+  let key := resolve cfg.path.isEmpty r
+  let s0 : LState := { s with lock := s.lock + 1 }
+  have h1 : (load cfg fs s r).1.utd = (loadBody cfg fs s0 r key).1.utd := rfl
+  have h2 : (load cfg fs s r).2 = (loadBody cfg fs s0 r key).2 := rfl
+  rw [h2] at hres
+  rcases loadBody_cases cfg fs s0 r key with ⟨t', hl, hc, _⟩ | ⟨_, ⟨hsp, hb⟩ | ⟨entries, isabs, hsp, hb⟩⟩
+  · exfalso
+    rcases hno with hno | ⟨har, hcur⟩
+    · have : alookup key s0.cache.items = none := hno
+      rw [this] at hl; cases hl
+    · rcases hc with hc | hc
+      · rw [har] at hc; cases hc
+      · have : stillCurrent fs s0 key = false := hcur
+        rw [this] at hc; cases hc
+  · rw [hb] at hres; cases hres
+  · have hsf := search_firstF cfg fs (touched s0 key) r key isabs entries
+    rw [hb] at hres
+    cases hfp : firstOnPathF fs r.fault key entries with
+    | nothing => rw [hfp] at hsf; simp only at hsf; rw [hsf] at hres; cases hres
+    | raised => rw [hfp] at hsf; simp only at hsf; rw [hsf] at hres; cases hres
+    | file fp name f =>
+      rw [hfp] at hsf
+      simp only at hsf
+      obtain ⟨checks, hsf⟩ := hsf
+      rw [hsf] at hres
+      rw [h1, hb, hsf]
+      rcases instantiate_cases cfg (touched s0 key) r key isabs fp name f
+          (if checks then .mtime fp f.mtime else .never) with ⟨_, hi⟩ | ⟨_, _, _, hi⟩ | ⟨_, _, hi⟩
+      · rw [hi] at hres; cases hres
+      · rw [hi] at hres; cases hres
+      · rw [hi] at hres ⊢
+        simp only [Res.ok.injEq] at hres
+        refine ⟨entries, isabs, fp, name, f, hsp, hfp, by rw [← hres], ?_⟩
+        cases checks with
+        | false => left; simp [utdSet, key]
+        | true => right; simp [utdSet, key]
+
+/-- changing the content (not the time) of the file found first does not change the walk -/
+theorem firstOnPathF_doctored (fs : FS) (fault : Fault) (key : Key) (entries : List Entry)
+    (fp name : Str) (f f' : File) (h : firstOnPathF fs fault key entries = .file fp name f) :
+    fs (normpath fp) = some f ∧
+    firstOnPathF (fsSet fs (normpath fp) (some f')) fault key entries = .file fp name f' := by
+  induction entries with
+  | nil => simp [firstOnPathF] at h
+  | cons e rest ih =>
+    unfold firstOnPathF at h ⊢
+    cases hs : serve fault e key with
+    | skip => rw [hs] at h; simp only at h ⊢; exact ih h
+    | raise => rw [hs] at h; simp at h
+    | «at» fp' name' checks =>
+      rw [hs] at h
+      simp only at h ⊢
+      cases hf : fs (normpath fp') with
+      | none =>
+        rw [hf] at h
+        simp only at h
+        obtain ⟨hfs, hrest⟩ := ih h
+        have hne : normpath fp' ≠ normpath fp := by
+          intro e; rw [e, hfs] at hf; cases hf
+        refine ⟨hfs, ?_⟩
+        simp only [fsSet, hne, ↓reduceIte, hf]
+        exact hrest
+      | some f0 =>
+        rw [hf] at h
+        simp only [Found.file.injEq] at h
+        obtain ⟨rfl, rfl, rfl⟩ := h
+        exact ⟨hf, by simp [fsSet]⟩
+
+/-- … nor any up-to-date check -/
+theorem stillCurrent_doctored (fs : FS) (s : LState) (key : Key) (p : Str) (f : File) (c : Nat) (b : Bool)
+    (hf : fs p = some f) :
+    stillCurrent (fsSet fs p (some ⟨c, b, f.mtime⟩)) s key = stillCurrent fs s key := by
+  unfold stillCurrent
+  cases s.utd key with
+  | none => rfl
+  | some u =>
+    cases u with
+    | never => rfl
+    | mtime fp m =>
+      simp only
+      by_cases hp : normpath fp = p
+      · simp [fsSet, hp, hf]
+      · simp [fsSet, hp]
+
+/-- what `wouldOpen = some p` says -/
+theorem wouldOpen_some {cfg : Cfg} {fs : FS} {s : LState} {r : Req} {p : Str}
+    (h : wouldOpen cfg fs s r = some p) :
+    (alookup (resolve cfg.path.isEmpty r) s.cache.items = none ∨
+      (cfg.autoReload = true ∧ stillCurrent fs s (resolve cfg.path.isEmpty r) = false)) ∧
+    ∃ entries isabs fp name f, searchPath cfg r (resolve cfg.path.isEmpty r) = some (entries, isabs) ∧
+      firstOnPathF fs r.fault (resolve cfg.path.isEmpty r) entries = .file fp name f ∧ p = normpath fp := by
+  unfold wouldOpen at h
+  simp only at h
+  split at h
+  · cases h
+  · rename_i hserved
+    refine ⟨?_, ?_⟩
+    · cases hl : alookup (resolve cfg.path.isEmpty r) s.cache.items with
+      | none => left; rfl
+      | some v =>
+        right
+        simp only [hl, Option.isSome_some, Bool.true_and, Bool.or_eq_true, Bool.not_eq_true', not_or,
+          Bool.not_eq_false, Bool.not_eq_true] at hserved
+        exact ⟨hserved.1, hserved.2⟩
+    · cases hsp : searchPath cfg r (resolve cfg.path.isEmpty r) with
+      | none => simp [hsp] at h
+      | some pr =>
+        obtain ⟨entries, isabs⟩ := pr
+        simp only [hsp] at h
+        cases hfp : firstOnPathF fs r.fault (resolve cfg.path.isEmpty r) entries with
+        | nothing => simp [hfp] at h
+        | raised => simp [hfp] at h
+        | file fp name f =>
+          simp only [hfp, Option.some.injEq] at h
+          exact ⟨entries, isabs, fp, name, f, rfl, hfp, h.symm⟩
+
+/-- **content new / time old is noticed**: a load during which the file it opens is rewritten in
+    place parses the new content, and with automatic reloading the entry it stores is not
+    current afterwards — the next load of the key walks the search path again -/
+theorem inplace_noticed (cfg : Cfg) (w : World) (r : Req) (c : Nat) (b : Bool) (p : Str) (f : File)
+    (t : Tmpl) (hopen : wouldOpen cfg w.fs w.ls r = some p) (hf : w.fs p = some f)
+    (hfresh : f.mtime < w.clock)
+    (hres : (hstepW cfg w (.loadRewrite r c b)).2 = some (.ok t)) :
+    t.content = c ∧ (hstepW cfg w (.loadRewrite r c b)).1.fs p = some ⟨c, b, w.clock⟩ ∧
+    stillCurrent (hstepW cfg w (.loadRewrite r c b)).1.fs (hstepW cfg w (.loadRewrite r c b)).1.ls
+      (resolve cfg.path.isEmpty r) = false := by
+  obtain ⟨hno, entries, isabs, fp, name, f0, hsp, hfp, hp⟩ := wouldOpen_some hopen
+  let fsD : FS := fsSet w.fs p (some ⟨c, b, f.mtime⟩)
+  have hstep : hstepW cfg w (.loadRewrite r c b) =
+      ({ fs := fsSet w.fs p (some ⟨c, b, w.clock⟩), clock := w.clock + 1, ls := (load cfg fsD w.ls r).1 },
+        some (load cfg fsD w.ls r).2) := by
+    simp only [hstepW, hopen, hf]
+    rfl
+  rw [hstep] at hres ⊢
+  simp only [Option.some.injEq] at hres
+  obtain ⟨hfs0, hfpD⟩ := firstOnPathF_doctored w.fs r.fault _ entries fp name f0 ⟨c, b, f.mtime⟩ hfp
+  rw [← hp] at hfs0 hfpD
+  have hff : f0 = f := by rw [hf] at hfs0; exact (Option.some.inj hfs0).symm
+  have hnoD : alookup (resolve cfg.path.isEmpty r) w.ls.cache.items = none ∨
+      (cfg.autoReload = true ∧ stillCurrent fsD w.ls (resolve cfg.path.isEmpty r) = false) := by
+    rcases hno with h | ⟨h1, h2⟩
+    · exact Or.inl h
+    · exact Or.inr ⟨h1, by rw [stillCurrent_doctored w.fs w.ls _ p f c b hf]; exact h2⟩
+  obtain ⟨entries', isabs', fp', name', f', hsp', hfp', hcont, hutd⟩ := load_parsed_utd cfg fsD w.ls r t hnoD hres
+  rw [hsp] at hsp'
+  simp only [Option.some.injEq, Prod.mk.injEq] at hsp'
+  obtain ⟨rfl, rfl⟩ := hsp'
+  rw [hfpD] at hfp'
+  simp only [Found.file.injEq] at hfp'
+  obtain ⟨rfl, rfl, rfl⟩ := hfp'
+  refine ⟨hcont, by simp [fsSet], ?_⟩
+  unfold stillCurrent
+  rcases hutd with hu | hu
+  · simp only [hu]
+  · simp only [hu, ← hp, fsSet, ↓reduceIte]
+    have : w.clock ≠ f.mtime := by omega
+    simpa using this
 
 end Genshi.LoaderP
